@@ -298,7 +298,7 @@ def line_flags(frame):
         utf8 = True
     except UnicodeDecodeError:
         return [False, True]
-    data = (text.strip().split(' ', 2) + ['', ''])[2]
+    data = (text.rstrip('\n').split(' ', 2) + ['', ''])[2]
     strict = True
     if data != '':
         try:
@@ -310,7 +310,7 @@ def line_flags(frame):
 
 def obs_frame(frame):
     """(action, specifier, error class, has data) of an emitted line; canonicalisation only"""
-    p = frame.strip(b' \t\n\r\x0b\x0c').split(b' ', 2) + [b'', b'']
+    p = (frame[:-1] if frame.endswith(b'\n') else frame).split(b' ', 2) + [b'', b'']
     cls = None
     if p[2].startswith(b'["') and b'"' in p[2][2:]:
         cls = hx(p[2][2:p[2].index(b'"', 2)])
@@ -696,7 +696,7 @@ def run(ctx):
     # exhaustive segmentations of short streams
     shorts = list(SHORT_STREAMS)
     rng.shuffle(shorts)
-    for s in shorts[:ctx.budget(2, 12)]:
+    for s in shorts[:ctx.budget(2, 8)]:
         s = s[:12] if big else s[:11]
         disp = {'kind': 'stub', 'plan': gen_plan(rng)} if rng.random() < 0.7 else {'kind': 'real'}
         if disp['kind'] == 'real' and not big:
@@ -705,7 +705,7 @@ def run(ctx):
             cases.append(case_of(chunks, disp))
         res.count('exhaustive-segmentation streams')
     # generated streams
-    for i in range(ctx.budget(2500, 40000)):
+    for i in range(ctx.budget(2500, 12000)):
         real = rng.random() < 0.2
         stream = gen_stream(rng, real, big)
         disp = {'kind': 'real', 'nan': rng.random() < 0.1} if real else {'kind': 'stub', 'plan': gen_plan(rng)}
